@@ -13,8 +13,17 @@ Hypotheses, all explicit:
   and its output depends on nothing else (C14's subject);
 * `CkOK E` — "checksum injective on the contents at hand" (CRC32 collisions, and the concatenation the code
   feeds it, are outside);
-* `Stamped cat S` for every source state of the history — "edits change mtime": a file seen twice with the same
-  mtime has the same content; `PosTimes` — no file has mtime 0;
+* `Stamped cat S` for every source state of the history — "edits change mtime", as far as the deployer records
+  it: a file seen twice with the same recorded time `recorded mtime` (what `BuildInfoPlugin` writes and
+  `ConfigNeedsUpdate` compares, re-read from the source on every run: `Gen.DeployFacts.timestampBits`) has the same
+  content; `PosTimes` — no file is recorded with time 0.
+  With 64-bit timestamps (`timestampBits = 64`, librime after the fix proposed in hooks/C12_fix_proposal2.diff)
+  `recorded` is the identity (`recorded_of_64`) and these are literally the property's "distinct modification
+  times" plus "no file has mtime 0" (`stamped_of_64`, `posTimes_of_64`).
+  With the `(int)` cast (`timestampBits = 32`) they are that only for mtimes less than 2³² s (136 years) apart
+  (`castInt_inj_of_close`), wherever they lie — before or after 2038-01-19 (recorded negative) or 2106-02-07
+  (recorded small); two mtimes a multiple of 2³² s apart are recorded alike, a multiple of 2³² s is recorded as
+  "absent" (`old_int_cast_counterexample`): there the property fails on the real code (corpus/C12/int_cast_*.json);
 * `SourcesOK E S` — the final sources are deployable: `default` has a schema list, every listed schema has a
   valid source, every reachable valid schema compiles and has its dictionary and pack sources
   (reuse-without-source and failed builds are excluded: there a stale artefact survives by design);
@@ -26,7 +35,76 @@ open RimeModel.C12
 
 set_option linter.unusedSectionVars false
 
-variable {K : Type} [DecidableEq K] {cat : Rid → Time → Content}
+variable {K : Type} [DecidableEq K] {cat : Rid → Stamp → Content}
+
+/-! ### the recorded time -/
+
+/-- the translator understood how the tree at hand stores and reads the source timestamps, and writer and reader
+agree (fails to build — fail closed — when `gen/deploy_facts.py` reports the shape as unknown) -/
+theorem timestamp_width_known :
+    RimeModel.Gen.DeployFacts.timestampBits = 32 ∨ RimeModel.Gen.DeployFacts.timestampBits = 64 := by decide
+
+/-- 64-bit timestamps: the recorded time is the mtime itself -/
+theorem recorded_of_64 (h : RimeModel.Gen.DeployFacts.timestampBits = 64) (t : Time) : recorded t = t := by
+  simp [recorded, h]
+
+/-- `(int)` timestamps: the recorded time is the truncated mtime -/
+theorem recorded_of_32 (h : RimeModel.Gen.DeployFacts.timestampBits = 32) (t : Time) : recorded t = castInt t := by
+  simp [recorded, h]
+
+/-- with 64-bit timestamps the hypothesis `Stamped` is the property's own "edits change the modification time":
+any assignment of contents to (file, mtime) pairs will do -/
+theorem stamped_of_64 (h : RimeModel.Gen.DeployFacts.timestampBits = 64) (S : Src)
+    (hS : ∀ r c t, S r = some (c, t) → c = cat r t) : Stamped cat S := by
+  intro r c t hr
+  rw [recorded_of_64 h]
+  exact hS r c t hr
+
+/-- with 64-bit timestamps the hypothesis `PosTimes` is "no file has mtime 0" -/
+theorem posTimes_of_64 (h : RimeModel.Gen.DeployFacts.timestampBits = 64) (S : Src)
+    (hS : ∀ r c t, S r = some (c, t) → t ≠ 0) : PosTimes S := by
+  intro r c t hr
+  rw [recorded_of_64 h]
+  exact hS r c t hr
+
+/-- **record of a defect found by this check** (librime ≤ 45d2b2d, `timestampBits = 32`): under the `(int)` cast two
+different mtimes are recorded alike, and a non-zero mtime is recorded as 0 = "absent" — so an edit that moves the
+mtime by 2³² s, or a source dated 2106-02-07T06:28:16Z, is invisible to `ConfigNeedsUpdate` (the model's
+`stampStale` answers "not stale" for a changed / an added file). -/
+theorem old_int_cast_counterexample :
+    (1500000098 : Int) ≠ 1500000098 + 4294967296 ∧ castInt 1500000098 = castInt (1500000098 + 4294967296) ∧
+    (4294967296 : Int) ≠ 0 ∧ castInt 4294967296 = 0 := by decide
+
+/-! #### the `(int)` cast (`last_build_time` in both variants; the source timestamps of the 32-bit one) -/
+
+/-- the cast is the identity on the range of an `int` (every date from 1901-12-13 to 2038-01-19) -/
+theorem castInt_id (t : Int) (h1 : -2147483648 ≤ t) (h2 : t < 2147483648) : castInt t = t := by
+  unfold castInt; omega
+
+/-- the recorded time is always an `int` -/
+theorem castInt_range (t : Int) : -2147483648 ≤ castInt t ∧ castInt t < 2147483648 := by
+  unfold castInt; omega
+
+/-- two mtimes are recorded alike exactly when they are a multiple of 2³² s apart -/
+theorem castInt_eq_iff (t t' : Int) : castInt t = castInt t' ↔ (t - t') % 4294967296 = 0 := by
+  unfold castInt; omega
+
+/-- so the recorded time tells apart any two different mtimes less than 2³² s (≈ 136 years) apart, on whichever
+side of 2038 or 2106 they lie: "distinct modification times" survive the cast -/
+theorem castInt_inj_of_close (t t' : Int) (h1 : t - t' < 4294967296) (h2 : t' - t < 4294967296)
+    (h : castInt t = castInt t') : t = t' := by
+  unfold castInt at h; omega
+
+/-- a clock reading between 2038-01-19 and 2106-02-07 is stored as a negative number -/
+theorem castInt_neg_2038 (t : Int) (h1 : 2147483648 ≤ t) (h2 : t < 4294967296) : castInt t < 0 := by
+  unfold castInt; omega
+
+/-- past the epoch, the stored time is never later than the time itself -/
+theorem castInt_le_self (t : Int) (h : 0 ≤ t) : castInt t ≤ t := by
+  unfold castInt; omega
+
+/-- a date in 2040 is recorded as a negative number, one in 2106 as a small one -/
+example : castInt 2208988812 = -2085978484 ∧ castInt 4294967301 = 5 ∧ castInt 1500000000 = 1500000000 := by decide
 
 /-- **C12, main clause.**  Deploying sources `S` over any consistent staging directory `A` leaves every
 artefact that a clean deployment (empty staging directory) of `S` produces — compiled configs, tables,
@@ -101,7 +179,7 @@ theorem history_eq_clean {E0 : Env K} (h : List (Step K)) (last : Step K) {A : A
   simp only [runHistory, List.foldl_append, List.foldl_cons, List.foldl_nil]
   exact (deploy_eq_clean c k s st (consistent_congr t hc) last.2.2 now').1
 
-theorem holds_lastBuild {A : Arts K} {a : Assign K} (t : Time) (h : A.Holds a) :
+theorem holds_lastBuild {A : Arts K} {a : Assign K} (t : Stamp) (h : A.Holds a) :
     ({ A with lastBuild := t } : Arts K).Holds a := by
   cases a <;> exact h
 
@@ -117,7 +195,7 @@ theorem no_stale_use {E : Env K} (hC : CompilerOK E) (hK : CkOK E) {S : Src} (hS
   intro a ha
   unfold deploy
   rw [(workspaceUpdate_spec hC hK hS hSt hA now).1]
-  exact holds_lastBuild now (holds_applyAssigns hF A ((plan_covers hc0 hl).2 sid hr hp hok a ha))
+  exact holds_lastBuild (castInt now) (holds_applyAssigns hF A ((plan_covers hc0 hl).2 sid hr hp hok a ha))
 
 /-- the same, spelled out for the primary table and the prism of a schema -/
 theorem no_stale_use_dict {E : Env K} (hC : CompilerOK E) (hK : CkOK E) {S : Src} (hS : SourcesOK E S)
@@ -138,7 +216,7 @@ same sources again leaves the staging directory as it is (only `last_build_time`
 verdict, and its log contains no write at all — provided no file is claimed with two contents. -/
 theorem deploy_idempotent_no_write {E : Env K} (hC : CompilerOK E) (hK : CkOK E) {S : Src} (hS : SourcesOK E S)
     (hSt : Stamped cat S) {A : Arts K} (hA : Consistent E cat A) (hF : Functional (plan E S)) (now now' : Time) :
-    (deploy E S now' (deploy E S now A).1).1 = { (deploy E S now A).1 with lastBuild := now' } ∧
+    (deploy E S now' (deploy E S now A).1).1 = { (deploy E S now A).1 with lastBuild := castInt now' } ∧
     (deploy E S now' (deploy E S now A).1).2.1 = (deploy E S now A).2.1 ∧
     NoWrites (deploy E S now' (deploy E S now A).1).2.2 := by
   have h1 := workspaceUpdate_spec hC hK hS hSt hA now
@@ -148,7 +226,7 @@ theorem deploy_idempotent_no_write {E : Env K} (hC : CompilerOK E) (hK : CkOK E)
   have hholds : ∀ a ∈ plan E S, (workspaceUpdate E S now A).1.Holds a := by
     intro a ha
     rw [h1.1]
-    exact holds_lastBuild now (holds_applyAssigns hF A ha)
+    exact holds_lastBuild (castInt now) (holds_applyAssigns hF A ha)
   have hn := workspaceUpdate_noop hC hS (A := (workspaceUpdate E S now A).1)
     (by intro c hc; rw [hc0] at hc; cases hc; exact hholds _ hcov.1)
     (by
@@ -163,7 +241,7 @@ theorem deploy_idempotent_no_write {E : Env K} (hC : CompilerOK E) (hK : CkOK E)
 
 /-! ### the pre-filter of `start_maintenance(False)` -/
 
-theorem foldl_max_gt (l : List Nat) : ∀ (a b : Nat), l.foldl max a > b ↔ a > b ∨ ∃ t ∈ l, t > b := by
+theorem foldl_max_gt (l : List Int) : ∀ (a b : Int), l.foldl max a > b ↔ a > b ∨ ∃ t ∈ l, t > b := by
   induction l with
   | nil => intro a b; simp
   | cons x l ih =>
@@ -180,25 +258,40 @@ theorem foldl_max_gt (l : List Nat) : ∀ (a b : Nat), l.foldl max a > b ↔ a >
       · exact Or.inl (by omega)
       · exact Or.inr h
 
-/-- **`DetectModifications`** fires exactly when one of the scanned mtimes (the two data directories and
-their top-level `*.yaml` files other than `user.yaml`) is later than `last_build_time`. -/
-theorem detect_modifications_lemma (mtimes : List Time) (lastBuild : Time) :
-    detectModifications mtimes lastBuild = true ↔ ∃ t ∈ mtimes, t > lastBuild := by
+/-- **`DetectModifications`** fires exactly when the stored `last_build_time` is negative (the maximum starts
+from `time_t last_modified = 0`) or one of the scanned mtimes (the two data directories and their top-level
+`*.yaml` files other than `user.yaml`, as 64-bit `time_t`) is later than it. -/
+theorem detect_modifications_lemma (mtimes : List Time) (lastBuild : Stamp) :
+    detectModifications mtimes lastBuild = true ↔ lastBuild < 0 ∨ ∃ t ∈ mtimes, t > lastBuild := by
   unfold detectModifications
   simp only [decide_eq_true_eq]
   rw [foldl_max_gt]
-  simp
+
+/-- the year-2038 behaviour of the pre-filter, as the code has it: a deployment that finishes between 2038-01-19
+and 2106-02-07 stores a negative `last_build_time`, after which the pre-filter always fires (it errs on the side
+of deploying; the deployment itself then rewrites nothing — `deploy_idempotent_no_write`). -/
+theorem detect_fires_after_2038 {E : Env K} {S : Src} (now : Int) (A : Arts K) (mtimes : List Time)
+    (h1 : 2147483648 ≤ now) (h2 : now < 4294967296)
+    (hdep : ∃ c l, E.compile .default S = some c ∧ c.schemaList = some l)
+    (hA : configNeedsUpdate S (A.cfg .default) = true) :
+    detectModifications mtimes (deploy E S now A).1.lastBuild = true := by
+  rw [detect_modifications_lemma]
+  obtain ⟨c, l, hc, hl⟩ := hdep
+  refine Or.inl ?_
+  simp [deploy, workspaceUpdate, configFileUpdate, hA, hc, hl, upd]
+  exact castInt_neg_2038 now h1 h2
 
 /-- so an edit of a scanned `*.yaml` made after a deployment finished (mtime later than the `time(NULL)`
-that deployment stored) is always detected; an edit whose mtime is not later (made while the deployment ran,
-or restored with an old mtime), and any `*.txt` / sub-directory file, is not — by construction. -/
-theorem detect_after_deploy {E : Env K} {S : Src} (now : Time) (A : Arts K) (mtimes : List Time) (t : Time)
-    (ht : t ∈ mtimes) (hlater : t > now)
+that deployment stored; the clock past the epoch) is always detected; an edit whose mtime is not later (made while
+the deployment ran, or restored with an old mtime), and any `*.txt` / sub-directory file, is not — by
+construction. -/
+theorem detect_after_deploy {E : Env K} {S : Src} (now : Int) (hnow : 0 ≤ now) (A : Arts K) (mtimes : List Time)
+    (t : Int) (ht : t ∈ mtimes) (hlater : t > now)
     (hdep : (E.compile .default S).isSome ∧ ∀ c, E.compile .default S = some c → c.schemaList.isSome)
     (hA : configNeedsUpdate S (A.cfg .default) = true) :
     detectModifications mtimes (deploy E S now A).1.lastBuild = true := by
   rw [detect_modifications_lemma]
-  refine ⟨t, ht, ?_⟩
+  refine Or.inr ⟨t, ht, ?_⟩
   obtain ⟨h1, h2⟩ := hdep
   cases hc : E.compile .default S with
   | none => rw [hc] at h1; cases h1
@@ -208,7 +301,7 @@ theorem detect_after_deploy {E : Env K} {S : Src} (now : Time) (A : Arts K) (mti
     | none => rw [hl] at h3; cases h3
     | some l =>
       simp [deploy, workspaceUpdate, configFileUpdate, hA, hc, hl, upd]
-      exact hlater
+      exact Int.lt_of_le_of_lt (castInt_le_self now hnow) hlater
 
 
 /-! ### non-vacuity: a concrete workspace (two schemas, one a dependency of the other, a shared default, a
@@ -228,7 +321,8 @@ example : CompilerOK exE ∧ CkOK exE ∧ SourcesOK exE exS ∧ Stamped exCat ex
   ⟨exCompilerOK, exCkOK, exSourcesOK _ (Or.inl rfl), exStamped _ (Or.inl rfl), exFunctional, by decide⟩
 
 /-- the incremental deployment after editing `sa.schema.yaml` rebuilds that config and the prism of `sa`,
-and reuses the table, the pack and everything of `sb` -/
+and reuses the table, the pack and everything of `sb` (whose source is dated 2040: recorded as a negative `int`,
+compared through the same cast) -/
 example : (deploy exE exS 20 (deploy exE exS0 15 (Arts.empty : Arts ExK)).1).2.2 =
     [.cfgDecision .default false, .cfgDecision (.schema "sa") true, .wroteCfg (.schema "sa"),
      .dictDecision "da" false true, .wrotePrism "sa", .packDecision "pk" false,
@@ -246,7 +340,8 @@ example : AgreeOn (runHistory (Arts.empty : Arts ExK) ([(exE, exS0, 15)] ++ [(ex
       · exact ⟨⟨rfl, rfl, rfl, rfl⟩, exCompilerOK, exCkOK, exSourcesOK _ (Or.inl rfl), exStamped _ (Or.inl rfl)⟩)
     99
 
-example : detectModifications [10, 11, 12, 21] 20 = true ∧ detectModifications [10, 11, 12] 20 = false := by
+example : detectModifications [10, 11, 12, 21] 20 = true ∧ detectModifications [10, 11, 12] 20 = false ∧
+    detectModifications [10, 2208988812] 20 = true ∧ detectModifications [10] (castInt 2208988812) = true := by
   decide
 
 end NonVacuity
